@@ -171,7 +171,8 @@ def full_address(sheet, coordinate):
 
 
 def when_tuple(cls, address, sheet):
-    return isinstance(address, tuple)
+    """the contract covers the plain-tuple branch of the constructor only"""
+    return isinstance(address, tuple) and not hasattr(address, 'sheet')
 
 
 def pre_cell_new(cls, address, sheet):
